@@ -23,7 +23,7 @@ LEVEL = "exploration"
 MANIFEST = {
     "technique": "bounded-exhaustive enumeration of the complete (nx, ny, modes_x, modes_y, halo, mode) product; per-wavenumber low-pass oracle and explicit-padding differential oracle",
     "text": "Every combination of grid sizes 3..8 (odd and even), even mode counts 2..12 per axis (below, at and above the padded size), three halos (zero, default, incommensurate) and both modes is executed; each call must either raise or return a field of the source's shape whose every Fourier component is registered (equal to the all-modes solution inside the cut-off, zero beyond it). Parity slips produce off-by-one shapes or half-cell misregistration, which this oracle sees for every combination, not just the even power-of-two grids the tests use.",
-    "note": "Any exception counts as 'raises' (the property allows rejection); the number of combinations that returned is reported and must be positive. Components exactly at the cut-off are unconstrained; the mixed case (only one axis above the padded size) is not compared for the low-pass claim because the implementation then keeps all modes on both axes.",
+    "note": "Any exception counts as 'raises' (the property allows rejection); the number of combinations that returned is reported and must be positive. Components exactly at the cut-off are unconstrained; a request above the padded size on one axis only is a request for more modes than the grid holds and must equal the all-modes solve (the library's documented 'Setting both equal').",
 }
 
 
@@ -39,6 +39,15 @@ def cases(tier):
     for nx, ny in itertools.product(range(3, hi + 1), repeat=2):
         for k, dom in enumerate(((150.0, 75.0), (100.0, 60.0))):
             yield {"nx": nx, "ny": ny, "halo": (0.0, None, 13.0)[(nx + ny + k) % 3], "footprint": bool((nx + k) % 2), "mhi": 8, "dom": list(dom)}
+
+
+def fine_cases(tier):
+    """cells much finer than the column is deep (0.5 m x 0.75 m cells under a 10 m column: the shortest retained wave decays
+    by exp(-60) over the column).  Only the analytic mode can be asked there (the shooting combination has no digits left
+    for such waves); it is exact, so every retained component is still present at the low output levels."""
+    sizes = (4, 5, 8) if tier == "quick" else (3, 4, 5, 6, 7, 8)
+    for nx, ny, halo, fp in itertools.product(sizes, sizes, (0.0, 2.0), (True, False)):
+        yield {"nx": nx, "ny": ny, "halo": halo, "footprint": fp, "mhi": 8 if tier == "quick" else 12, "cell": [0.5, 0.75], "analytic": True}
 
 
 def _lowpass_check(out, full, nlx, nly, tol):
@@ -60,15 +69,16 @@ def case_grid(case):
     S0 = sl.solver()
     seed = int(os.environ.get("VERIF_SEED", "0") or 0)
     nx, ny, halo, fp = case["nx"], case["ny"], case["halo"], case["footprint"]
-    dx, dy = 10.0, 15.0
+    dx, dy = case.get("cell", (10.0, 15.0))
     dom = (nx * dx, ny * dy)
+    an = bool(case.get("analytic"))
     if "dom" in case:
         dom = tuple(case["dom"])
         dx, dy = dom[0] / nx, dom[1] / ny
     nxe, nye, px, py = sl.padded_size(nx, ny, dom, halo)
     sl.pollute(nxe, nye, dx, dy)
-    z, prof = sl.build_profiles("most_aniso", 3)
-    levels = [0, 3]
+    z, prof = sl.build_profiles("const" if an else "most_aniso", 3)
+    levels = [0, 3] if not an else [0, 1]
     rng = core.case_rng(seed, [nx, ny])
     q = rng.random((ny, nx))
     # tower: interior cell, or on the western / southern domain edge (exactly one coordinate zero), or the corner
@@ -80,7 +90,7 @@ def case_grid(case):
     def S(q_, dom_, modes, halo_, mp_):
         cnt[0] += 1
         try:
-            g, c, f = S0(q_, z, prof, dom_, levels, modes=modes, halo=halo_, precision="double", footprint=fp, meas_pt=mp_)
+            g, c, f = S0(q_, z, prof, dom_, levels, modes=modes, halo=halo_, precision="double", footprint=fp, meas_pt=mp_, analytic=an)
             return g, np.stack([np.asarray(c, dtype=float), np.asarray(f, dtype=float)]) if np.shape(c) == np.shape(f) else (np.asarray(c), np.asarray(f))
         except Exception as e:  # the property allows a call to raise
             return None, "%s" % type(e).__name__
@@ -127,9 +137,9 @@ def case_grid(case):
         Xw, Yw = np.meshgrid(np.arange(nx) * (dom[0] / nx), np.arange(ny) * (dom[1] / ny))
         if X.shape[-2:] != (ny, nx) or not (np.allclose(X.reshape(-1, ny, nx)[0], Xw, rtol=1e-13, atol=1e-12) and np.allclose(Y.reshape(-1, ny, nx)[0], Yw, rtol=1e-13, atol=1e-12)):
             v.append({"sub": "coords", "sig": "coords/" + sigp, "msg": "%s: returned coordinates are not x=i*dx, y=j*dy" % lab})
+        # a request that exceeds the padded grid in one direction only is a request for more modes than the grid holds:
+        # the documented answer ("Setting both equal") is the all-modes solve
         mixed = (nlx > nxe) != (nly > nye)
-        if mixed:
-            continue
         ntested += 1
         # the same request on the explicitly padded domain (identical for halo=0)
         if px or py:
@@ -142,6 +152,8 @@ def case_grid(case):
                 v.append({"sub": "halo-padding", "sig": "halo-padding/" + sigp, "msg": "%s: differs from the crop of the explicitly padded halo=0 solve by %.2e" % (lab, e)})
         else:
             outp = out
+        if mixed:
+            nlx, nly = nxe + 2, nye + 2
         ein, ebe, nin = _lowpass_check(outp, full, min(nlx, nxe), min(nly, nye), tol)
         if not (ein <= tol and ebe <= tol):
             v.append({"sub": "lowpass", "sig": "lowpass/" + sigp,
@@ -164,6 +176,7 @@ def run(ctx):
         % (hi, mhi)
     )
     res = ctx.run_cases(case_grid, cases(ctx.tier), sub="grid", chunksize=1)
+    res += ctx.run_cases(case_grid, fine_cases(ctx.tier), sub="fine cells under a deep column (analytic mode)", chunksize=1)
     ret = int(sum(r.get("obs", {}).get("returned", 0) for r in res))
     rs = {}
     for r in res:
